@@ -20,7 +20,8 @@
 (* the same name in the scheduler's event log (see LoaderTrace.tla).       *)
 (***************************************************************************)
 EXTENDS Naturals, Sequences, FiniteSets, TLC
-CONSTANTS URLS, Inc, Fetch, Parse, MaxThr, Prog, CacheInit
+CONSTANTS URLS, Inc, Fetch, Parse, MaxThr, Prog, CacheInit,
+          FlatIncludes     \* TRUE: the including Sections are top-level Sections of their own - a document asks only for the files it includes directly
 Absent == 0          \* url not in the table
 NoneV == 99          \* Python None (resource could not be fetched or parsed)
 Thr == 1..MaxThr
@@ -34,7 +35,7 @@ RECURSIVE Flat(_)
 Flat(ss) == IF ss = <<>> THEN <<>> ELSE (IF Usable(Head(ss)) THEN Inc[Head(ss)] ELSE <<>>) \o Flat(Tail(ss))
 RECURSIVE Levels(_, _)
 Levels(lv, n) == IF lv = <<>> \/ n = 0 THEN <<>> ELSE lv \o Levels(Flat(lv), n - 1)
-IncSeq(x) == Levels(Inc[x], Cardinality(URLS))
+IncSeq(x) == IF FlatIncludes THEN Inc[x] ELSE Levels(Inc[x], Cardinality(URLS))
 
 (* --algorithm Loader {
 variables loaded = [uu \in URLS |-> Absent],     \* Terminologies dict: url -> document id | NoneV
